@@ -98,6 +98,12 @@ pub struct Gen<'a> {
     /// raw `$ref` siblings other than `nullable`, and `examples` lists
     pub rich_raw: bool,
     pub features: std::collections::BTreeSet<&'static str>,
+    /// index of the definition being generated (-1: the root); a `$ref` at a
+    /// position not guarded by properties/items may only point to a LATER
+    /// definition, so that every reference cycle passes through an instance
+    /// level (derive-generated recursion always does)
+    pub cur_def: i64,
+    pub guarded: bool,
 }
 
 const PROP_NAMES: &[&str] = &["a", "b", "id", "name", "kind", "value", "items", "x-y", "nullable", "type", "é"];
@@ -217,7 +223,7 @@ impl<'a> Gen<'a> {
 
     fn bounds(&mut self, o: &mut Map<String, Value>, float: bool) {
         let big = self.r.chance(1, 8);
-        let mut pick = |g: &mut Self| -> Value {
+        let pick = |g: &mut Self| -> Value {
             if float {
                 json!(g.r.range(-400, 400) as f64 / 4.0)
             } else if big {
@@ -313,7 +319,10 @@ impl<'a> Gen<'a> {
     fn array(&mut self, d: u32) -> Map<String, Value> {
         let mut o = Map::new();
         o.insert("type".into(), json!("array"));
-        o.insert("items".into(), self.node(d + 1));
+        let g0 = std::mem::replace(&mut self.guarded, true);
+        let items = self.node(d + 1);
+        self.guarded = g0;
+        o.insert("items".into(), items);
         if self.r.chance(30, 100) {
             let lo = self.r.below(3);
             match self.r.below(3) {
@@ -340,6 +349,13 @@ impl<'a> Gen<'a> {
     }
 
     fn object(&mut self, d: u32) -> Map<String, Value> {
+        let g0 = std::mem::replace(&mut self.guarded, true);
+        let o = self.object_inner(d);
+        self.guarded = g0;
+        o
+    }
+
+    fn object_inner(&mut self, d: u32) -> Map<String, Value> {
         let mut o = Map::new();
         o.insert("type".into(), json!("object"));
         let map_like = self.r.chance(15, 100);
@@ -394,9 +410,18 @@ impl<'a> Gen<'a> {
         o
     }
 
+    fn refs_allowed(&self) -> Vec<String> {
+        if self.guarded {
+            self.defs.clone()
+        } else {
+            self.defs.iter().enumerate().filter(|(i, _)| (*i as i64) > self.cur_def).map(|(_, n)| n.clone()).collect()
+        }
+    }
+
     fn reference(&mut self) -> Map<String, Value> {
         let mut o = Map::new();
-        let name = self.r.pick(&self.defs).clone();
+        let allowed = self.refs_allowed();
+        let name = self.r.pick(&allowed).clone();
         o.insert("$ref".into(), json!(format!("#/components/schemas/{name}")));
         self.features.insert("ref");
         o
@@ -408,7 +433,10 @@ impl<'a> Gen<'a> {
         props.insert("t".into(), json!({"type": "string", "enum": [format!("v{i}")]}));
         let mut req = vec![json!("t")];
         if self.r.bool() {
-            props.insert("c".into(), self.node(d + 1));
+            let g0 = std::mem::replace(&mut self.guarded, true);
+            let c = self.node(d + 1);
+            self.guarded = g0;
+            props.insert("c".into(), c);
             if self.r.bool() {
                 req.push(json!("c"));
             }
@@ -433,7 +461,7 @@ impl<'a> Gen<'a> {
                 let n = 1 + self.r.usize(3);
                 let v: Vec<Value> = (0..n)
                     .map(|_| {
-                        if !self.defs.is_empty() && self.r.bool() {
+                        if !self.refs_allowed().is_empty() && self.r.bool() {
                             Value::Object(self.reference())
                         } else {
                             Value::Object(self.object(d + 1))
@@ -476,7 +504,7 @@ impl<'a> Gen<'a> {
     /// one schema node in raw form
     pub fn node(&mut self, d: u32) -> Value {
         let deep = d >= 3;
-        let has_defs = !self.defs.is_empty();
+        let has_defs = !self.refs_allowed().is_empty();
         let w = self.r.below(100);
         let mut o = if w < 18 {
             self.string()
@@ -621,6 +649,8 @@ pub fn dyn_case(seed: u64, shard: u64, index: u64) -> Value {
         // types (Option/Vec/Map of references) can carry in raw form
         rich_raw: referenceable,
         features: Default::default(),
+        cur_def: -1,
+        guarded: false,
     };
     let root = loop {
         let n = g.node(0);
@@ -635,7 +665,9 @@ pub fn dyn_case(seed: u64, shard: u64, index: u64) -> Value {
     let was_rich = g.rich_raw;
     g.rich_raw = true;
     let mut def_schemas: Vec<(String, Value)> = vec![];
-    for n in &defs {
+    for (di, n) in defs.iter().enumerate() {
+        g.cur_def = di as i64;
+        g.guarded = false;
         let s = loop {
             let s = if g.r.chance(2, 3) { Value::Object(g.object(1)) } else { g.node(1) };
             if let Value::Object(o) = &s {
@@ -649,6 +681,7 @@ pub fn dyn_case(seed: u64, shard: u64, index: u64) -> Value {
     g.rich_raw = was_rich;
     // parameter / header structs (always through root_schema_for => visited)
     g.rich_raw = true;
+    g.cur_def = -1;
     let with_params = g.r.chance(1, 2);
     let enum_def = json!({"type": "string", "enum": ["p", "q", "r"]});
     let qschema = g.member_struct(false, Some("DefEnum"), &["a", "b", "limit", "sort-by", "id", "Name"]);
